@@ -2,6 +2,7 @@ package props
 
 import (
 	"fmt"
+	"strings"
 
 	"golang.org/x/tools/go/ssa"
 
@@ -156,7 +157,7 @@ func (h H) voterCacheFreshness(rule string) {
 				}
 				h.C.Check(rule+" fresh-on-change", construct, ok, h.pos(s.Instr), "the cached voter information is computed from the configuration that is about to be replaced ("+v.String()+"): after the voter set changes size the majority is computed over the wrong set")
 			case "(*leader).init":
-				h.C.Check(rule+" fresh-on-init", construct, v.Contains("leader.Raft.storage.configs.Latest"), h.pos(s.Instr), "leader.init must derive the cache from the latest configuration; found "+v.String())
+				h.C.Check(rule+" fresh-on-init", construct, strings.Contains(h.expandLocals(s.Fn, v.String()), "leader.Raft.storage.configs.Latest"), h.pos(s.Instr), "leader.init must derive the cache from the latest configuration; found "+v.String())
 			}
 			// what is cached: numVoters() of / Nodes[nid] of
 			if fld == "raft:leader.numVoters" {
